@@ -35,6 +35,9 @@ def _chk(ctx, name, what, got, exp, scale, key, mask=None, extra=None):
 
 def mon_bc(args, kwargs, result, tok):
     ctx = CTX
+    if not probes.take("namedBC"):
+        ctx.skip("namedBC:not-sampled")
+        return
     model, name, dirv, data, param = args[0], args[1], args[2], args[3], args[4]
     eqn = model.equation
     if name == "dirichlet":
@@ -108,6 +111,9 @@ def mon_bc(args, kwargs, result, tok):
             _chk(ctx, nm, "pressure", p1, 0 * p0 + float(param["p"]), 0 * p0 + float(param["p"]), "imposed-pressure-not-met", reg, ex)
         else:
             reg = adm & np.isfinite(r1 + p1 + un1) & (r1 > 0) & (p1 > 0)
+            # regime of the condition: an INFLOW state on the outgoing characteristic exists only while the invariant carried
+            # from the interior does not exceed that of the reservoir at rest, u_n + 2c/(g-1) <= 2 sqrt(g r Ttot)/(g-1)
+            inflow_regime = (un0 + 2 * c0 / gm) <= 2 * np.sqrt(g * rttot) / gm * (1 - 1e-9)
             # outgoing characteristic (towards the boundary) carries u_n + 2c/(gamma-1) in outward-normal terms
             _chk(ctx, nm, "riemann-invariant", un1 + 2 * c1 / gm, un0 + 2 * c0 / gm, np.abs(un0) + c0, "outgoing-invariant-not-kept", reg, ex)
         _chk(ctx, nm, "ptot", pt1, 0 * p0 + ptot, 0 * p0 + ptot, "total-pressure-not-imposed", reg, ex)
@@ -119,9 +125,10 @@ def mon_bc(args, kwargs, result, tok):
         else:
             if two_d:
                 _chk(ctx, nm, "tangential", ut1, 0 * p0, q1 + c1, "inflow-not-normal-to-boundary", reg, ex)
-            okin = un1[reg] <= 1e-12 * (q1[reg] + c1[reg]) if np.any(reg) else np.array([True])
-            if name != "insub_cbc" or np.all(un0[reg] <= 0 if np.any(reg) else True):
-                ctx.true(nm + ":inflow", np.all(okin), nm + "/flow-not-into-domain", {"outward normal velocity": un1[reg][~okin][:3] if np.any(reg) else None, **ex}, cls=nm)
+            rin = reg & inflow_regime if name == "insub_cbc" else reg
+            if np.any(rin):
+                okin = un1[rin] <= 1e-12 * (q1[rin] + c1[rin])
+                ctx.true(nm + ":inflow", np.all(okin), nm + "/flow-not-into-domain", {"outward normal velocity": un1[rin][~okin][:3], **ex}, cls=nm)
         return
     if name in ("outsub", "outsub_prim"):
         ctx.true(nm, np.array_equal(r1, r0) and np.array_equal(_arr(np.asarray(result[1], float)), _arr(np.asarray(data[1], float))), nm + "/density-velocity-not-copied", None, cls=nm)
